@@ -28,25 +28,26 @@ package storage
 //@ pred keyOf(ms, mint, maxt, h) = hfin(wbool(wstr(wstr(wint(wint(wint(mlistAcc(ms.ptr, ms.off, len(ms)), mint), maxt), h.Step), h.Func),
 //@     strjoin(h.Grouping.ptr, h.Grouping.off, len(h.Grouping), ";")), h.By))
 //@ func hashMatchers
+//@   assigns nothing
 //@   requires matchersOK(matchers)
 //@   at line "writeInt64(sb, mint)" assume digest-of-matcher-list: sb.acc == mlistAcc(matchers.ptr, matchers.off, len(matchers))
 //@   ensures[C02,C03,C07,C09,C16] key-covers-window-step-and-hints: result == keyOf(matchers, mint, maxt, hints)
-//@   loop 0 invariant sb != nil
+//@   loop 0 invariant sb != nil && fresh(sb)
 //@ func writeInt64
 //@   requires sb != nil
-//@   assigns ghost acc
+//@   assigns ghost acc@sb
 //@   ensures sb.acc == wint(old(sb.acc), val)
 //@ func writeString
 //@   requires sb != nil
-//@   assigns ghost acc
+//@   assigns ghost acc@sb
 //@   ensures sb.acc == wstr(old(sb.acc), val)
 //@ func writeBool
 //@   requires sb != nil
-//@   assigns ghost acc
+//@   assigns ghost acc@sb
 //@   ensures sb.acc == wbool(old(sb.acc), val)
 //@ func writeMatcher
 //@   requires sb != nil && m != nil
-//@   assigns ghost acc
+//@   assigns ghost acc@sb
 //@ pred selOK(s, k) = s != nil && allocated(s) && keyOf(s.matchers, s.mint, s.maxt, s.hints) == k && s.hints.Start == s.mint && s.hints.End == s.maxt && s.once == 0
 //@ pred poolInv(p) = p != nil && !isnil(p.selectors) && (forall k :: has(p.selectors, k) ==> selOK(p.selectors[k], k))
 
@@ -61,11 +62,13 @@ package storage
 //@     s.hints.Start == hints.Start && s.hints.End == hints.End && s.hints.Step == hints.Step && s.hints.Func == hints.Func &&
 //@     s.hints.By == hints.By && sameslice(s.hints.Grouping, hints.Grouping) && s.once == 0
 //@ func (*SelectorPool).GetSelector
+//@   assigns map[uint64]*execution/storage.seriesSelector.*
 //@   requires poolInv(p) && matchersOK(matchers) && hints.Start == mint && hints.End == maxt
 //@   ensures pool-kept: poolInv(p)
 //@   ensures[C02,C07,C09,C16,C17] selector-as-requested: istype(result, *engstore.seriesSelector) &&
 //@       selectorFor(cast(result, *engstore.seriesSelector), matchers, mint, maxt, hints)
 //@ func (*SelectorPool).GetFilteredSelector
+//@   assigns map[uint64]*execution/storage.seriesSelector.*
 //@   requires poolInv(p) && matchersOK(matchers) && matchersOK(filters) && hints.Start == mint && hints.End == maxt
 //@   ensures pool-kept: poolInv(p)
 //@   ensures[C03,C07,C09,C16,C17] selector-as-requested: istype(result, *engstore.filteredSelector) &&
@@ -73,6 +76,7 @@ package storage
 //@   ensures[C09] filter-as-requested: cast(result, *engstore.filteredSelector).filter != nil && cast(result, *engstore.filteredSelector).once == 0
 
 //@ func NewFilter
+//@   assigns nothing
 //@   requires matchersOK(matchers)
 //@   ensures result != nil
 
@@ -81,6 +85,7 @@ package storage
 // a panic raised by a storage callback (Select, series-set iteration). An error of Querier() or of
 // the series set is the error returned.
 //@ func (*seriesSelector).loadSeries
+//@   assigns elems(execution/storage.SignedSeries), ghost closes, execution/storage.seriesSelector.series
 //@   requires o != nil && o.storage != nil && ctx != nil
 //@   panics may
 //@   ensures[C15] open-error-surfaces: callres("promstorage.Queryable.Querier", 1, 1) != nil ==> result == callres("promstorage.Queryable.Querier", 1, 1)
@@ -104,6 +109,7 @@ package storage
 
 // ---- series_selector.go / filtered_selector.go: GetSeries (C02, C09, C11, C15) --------------------
 //@ func (*seriesSelector).GetSeries
+//@   assigns execution/storage.seriesSelector.once, execution/storage.seriesSelector.series, elems(execution/storage.SignedSeries), ghost closes
 //@   requires o != nil && o.storage != nil && ctx != nil && numShards >= 1 && 0 <= shard && shard < numShards
 //@   panics may
 //@   ensures[C15] load-error-surfaces: result1 != nil ==> isnil(result0)
